@@ -315,6 +315,12 @@ func (rs *RoachSource) StartRun() error {
 					totalBytes = 0
 				}
 				rs.nextBlock <- block
+				if block.err != nil {
+					// The reader has given up (timeout, socket error) and the core loop ends the run on this block.
+					// Nobody will close abortSelf for a run that ended by itself: leave, or this goroutine (and
+					// with it the open sockets, see the deferred Delete) stays behind for every such run.
+					return
+				}
 			}
 		}
 	}()
